@@ -19,7 +19,7 @@ func init() {
 	register(&Property{
 		Meta: report.Meta{
 			Property:    "C14",
-			Explanation: "Structural rules on the selector tokenizer / parser and on the policy tuple codec: (R1) tokenize is a partition — every token appended is str[ofs:col] with ofs then set to col, and on every exit of the scanning loop either the pending tail str[ofs:col] is appended or the fact ofs >= col holds (no condition on the quote state may drop it); (R2) every iteration of Parse's loop over all tokens either appends exactly one segment whose printed form (str) is the whole token (or the constant \".\") or is a failure exit, so printing reproduces the accepted text; (R3) for each statement struct the tuple positions read by statementFromIPLD equal the positions written by statementToIPLD, and the arities (2 for not/and/or, 3 otherwise) agree. Deep equality of round-tripped policies and the meaning of re-parsed selectors are runtime-value clauses and are not decided.",
+			Explanation: "Structural rules on the selector tokenizer / parser and on the policy tuple codec: (R1) tokenize is a partition — every token appended is str[ofs:col] with ofs then set to col, and on every exit of the scanning loop either the pending tail str[ofs:col] is appended or the fact ofs >= col holds (no condition on the quote state may drop it); (R2) every iteration of Parse's loop over all tokens either appends exactly one segment whose printed form (str) is the whole token (or the constant \".\") or is a failure exit, so printing reproduces the accepted text; (R3) for each statement struct the tuple positions read by statementFromIPLD equal the positions written by statementToIPLD, and the arities (2 for not/and/or, 3 otherwise) agree. Deep equality of round-tripped policies and the meaning of re-parsed selectors are runtime-value clauses and are not decided. The data value of a decoded statement (field of type datamodel.Node) is exactly the node looked up in the tuple.",
 			Assumptions: []string{"go-ipld-prime list assembler appends values in call order"},
 			Trusted:     []string{"golang.org/x/tools/go/ssa v0.29.0", "go-ipld-prime"},
 			NotDecided:  []string{"deep equality of round-tripped policies", "equivalence of meaning of printed and re-parsed selectors"},
@@ -31,7 +31,7 @@ func init() {
 func runC14(x *Ctx) {
 	x.C.Rule("C14.R1", "tokenize partitions the input: no tail is dropped", 3)
 	x.C.Rule("C14.R2", "each token yields exactly one segment printing as that token, or an error; slice tokens have exactly two parts; quoted lookups are fields", 5)
-	x.C.Rule("C14.R3", "policy tuple positions and arities agree between decoder and encoder", 6)
+	x.C.Rule("C14.R3", "policy tuple positions and arities agree between decoder and encoder; data values are kept verbatim", 7)
 
 	if f := x.fn("C14.R1", selPkg+"tokenize"); f != nil {
 		tokenizeRule(x, f)
@@ -390,6 +390,7 @@ func tupleAgreement(x *Ctx) {
 	}
 	// --- decoder
 	decT := map[string]*table{}
+	verbatim, verbatimWhy := map[string]bool{}, map[string]string{}
 	dsel, _, err := x.E.Select(dec, paths.WantSuccess)
 	if err != nil {
 		x.C.Unresolved("C14.R3", "paths:statementFromIPLD", x.pos(dec), err.Error())
@@ -412,7 +413,24 @@ func tupleAgreement(x *Ctx) {
 				}
 			}
 		}
+		stT, _ := cell.Type().Underlying().(*types.Pointer).Elem().Underlying().(*types.Struct)
 		for fld, val := range v.FieldStores(cell) {
+			// a data value (an IPLD node held by the statement) is the node of the tuple itself, not something computed from it
+			if stT != nil {
+				for i := 0; i < stT.NumFields(); i++ {
+					if paths.FieldName(stT.Field(i)) != fld || !strings.HasSuffix(types.Unalias(stT.Field(i).Type()).String(), "datamodel.Node") {
+						continue
+					}
+					ex := val
+					okV := ex.Op == "extract" && ex.Name == "#0" && len(ex.Args) == 1 && ex.Args[0].Op == "invoke" && strings.HasSuffix(ex.Args[0].Name, "Node.LookupByIndex") && ex.Args[0].Args[0].String() == "arg1"
+					if prev, seen := verbatim[typ+"."+fld]; !seen || prev {
+						verbatim[typ+"."+fld] = okV
+						if !okV {
+							verbatimWhy[typ+"."+fld] = val.String()
+						}
+					}
+				}
+			}
 			if k, ok := lookupIndexOf(x, val); ok {
 				t.pos[fld] = k
 			} else {
@@ -430,6 +448,17 @@ func tupleAgreement(x *Ctx) {
 			x.C.Obl("C14.R3", "decoder-consistent:"+typ, x.pos(dec), "all success paths of one struct type read the same positions", false, fmt.Sprint(old.pos, t.pos))
 		}
 		decT[typ] = t
+	}
+	var vk []string
+	for k := range verbatim {
+		vk = append(vk, k)
+	}
+	sort.Strings(vk)
+	for _, k := range vk {
+		x.C.Obl("C14.R3", "verbatim:"+k, x.pos(dec), "the data value of the statement is the node found in the tuple, unchanged (what is written back is what was read)", verbatim[k], "the field holds "+verbatimWhy[k])
+	}
+	if len(vk) == 0 {
+		x.C.Obl("C14.R3", "verbatim:none", x.pos(dec), "a decoded statement holds its data value as an IPLD node", false, "no field of type datamodel.Node is stored by the decoder")
 	}
 	var types5 []string
 	for t := range decT {
